@@ -10,10 +10,15 @@
      (3) [protocol_choose_set_is_last_prioritized] (for every lawful VersionSet and every trace whose dependency
          answers carry well-formed sets): the set of every choose_version(p, set) call the model accepts is the
          set of the LAST prioritize call for p before it (Proofs/SolverQueue2.v).
-   NOT proved in Coq (decided by the trace checker of the harness on every recorded trace): the "non-empty"
-   part of clause (3) and clause (4) "the first version query is the root with the singleton set". *)
+         [protocol_choose_set_nonempty]: and that set is not the empty set (every accumulated term of the partial
+         solution is non-empty over the semantic universe of the lawful VersionSet - through conflict resolution
+         and backtracking as well; Proofs/SolverProto2.v);
+     (4) [protocol_first_query_is_root]: the first choose_version call is for the root with the singleton set of the
+         requested version, preceded by exactly should_cancel and one prioritize call for the root with that set.
+   All clauses of the property are thus theorems about the model; the tie to the Rust code is the replay of every
+   recorded trace and the protocol checker of the harness run on the implementation's own trace. *)
 From Coq Require Import List NArith Bool.
-From PG Require Import Model.VS Model.Term Model.Solver Proofs.VSLaws Proofs.SolverQueue2 Proofs.SolverTrace Proofs.SolverProtocol.
+From PG Require Import Model.VS Model.Term Model.Solver Proofs.VSLaws Proofs.SolverQueue2 Proofs.SolverProto2 Proofs.SolverTrace Proofs.SolverProtocol.
 Import ListNotations.
 
 Section C12.
@@ -67,6 +72,26 @@ Section C12_semantic.
       trace_wf O L tr -> resolve O veqb fuel r v tr = (o, st', log, cnt) ->
       i < cnt -> nth_error tr i = Some (EvChoose p s a) -> exists z, last_prio_at tr i p s z.
   Proof. exact (resolve_choose_set O L veqb). Qed.
+
+  Theorem protocol_choose_set_nonempty :
+    forall fuel r rv (tr : list event) o st log cnt i p s a,
+      trace_wf O L tr -> resolve O veqb fuel r rv tr = (o, st, log, cnt) ->
+      i < cnt -> nth_error tr i = Some (EvChoose p s a) ->
+      s <> vs_empty O /\ vs_eqb O s (vs_empty O) = false.
+  Proof.
+    intros fuel r rv tr o st log cnt i p s a Hwf E Hi Hn. split.
+    - exact (resolve_choose_nonempty O L veqb fuel r rv tr o st log cnt i p s a Hwf E Hi Hn).
+    - exact (resolve_choose_nonempty_eqb O L veqb fuel r rv tr o st log cnt i p s a Hwf E Hi Hn).
+  Qed.
+
+  Theorem protocol_first_query_is_root :
+    forall fuel r rv (tr : list event) o st log cnt i p s a,
+      resolve O veqb fuel r rv tr = (o, st, log, cnt) ->
+      i < cnt -> nth_error tr i = Some (EvChoose p s a) ->
+      (forall j e, j < i -> nth_error tr j = Some e -> is_choose e = false) ->
+      p = r /\ s = vs_singleton O rv /\ i = 2 /\
+      exists z, firstn i tr = [EvCancel true; EvPrioritize r (vs_singleton O rv) z].
+  Proof. exact (resolve_first_choose O L veqb). Qed.
 End C12_semantic.
 
 Print Assumptions protocol_consumed_trace_partial.
@@ -75,3 +100,5 @@ Print Assumptions protocol_after_choose.
 Print Assumptions protocol_deps_preceded.
 Print Assumptions protocol_deps_once.
 Print Assumptions protocol_choose_set_is_last_prioritized.
+Print Assumptions protocol_choose_set_nonempty.
+Print Assumptions protocol_first_query_is_root.
